@@ -34,11 +34,11 @@ theorem fortran_glue_complete_and_shifts_documented : fComplete = true ∧ shift
 /-- non-vacuity: the predicates reject a wrapper returning the wrong invalid-instance result, a wrong shift and a
 row-count adjustment without its guard -/
 example :
-    matchesDoc ⟨"GetLogString", "const char*", [("int", "id")], [], [], "err_msg", true, "x", []⟩ .silentEmpty = false ∧
-    matchesDoc ⟨"GetDumpStringLineCount", "int", [("int", "id")], [], [], "IPQ_BADINSTANCE", false, "", []⟩ .silentZero = false ∧
+    matchesDoc ⟨"GetLogString", "const char*", [("int", "id")], [], [], "err_msg", true, "x", [], "ok"⟩ .silentEmpty = false ∧
+    matchesDoc ⟨"GetDumpStringLineCount", "int", [("int", "id")], [], [], "IPQ_BADINSTANCE", false, "", [], "ok"⟩ .silentZero = false ∧
     wfF ⟨"GetComponentF", "void", [("int*", "id"), ("int*", "n"), ("char*", "comp"), ("int*", "line_length")],
-         [("GetComponent", ["*id", "*n"])], [["comp", "::GetComponent(*id,*n)", "line_length"]], false, "", false⟩ = false ∧
-    wfF ⟨"GetSelectedOutputRowCountF", "int", [("int*", "id")], [("GetSelectedOutputRowCount", ["*id"])], [], true, "", false⟩ = false := by
+         [("GetComponent", ["*id", "*n"])], [["comp", "::GetComponent(*id,*n)", "line_length"]], false, "", false, "ok"⟩ = false ∧
+    wfF ⟨"GetSelectedOutputRowCountF", "int", [("int*", "id")], [("GetSelectedOutputRowCount", ["*id"])], [], true, "", false, "ok"⟩ = false := by
   decide
 
 /-- `padfstring`: the buffer always holds exactly `len` characters, the source prefix followed by blanks,
